@@ -25,7 +25,10 @@ def make_msg(k):
     if fam == 0:
         return mido.Message('control_change', channel=k % 16, control=(k // 16) % 128, value=(k // 2048) % 128)
     if fam == 1:
-        return mido.MetaMessage('text', text='m%d' % k)
+        # text the default charset cannot encode is legal in a message in memory (what it is saved as is the file's business)
+        from mido.midifiles.meta import meta_charset
+        with meta_charset('utf-8'):          # as a message loaded from a utf-8 file would have been made
+            return mido.MetaMessage('text', text=('\u266a%d' if k % 2 else 'm%d') % k)
     return mido.UnknownMetaMessage(0x60, data=[k % 256, (k // 256) % 256, (k // 65536) % 256])
 
 
@@ -94,7 +97,10 @@ def impl_case(c):
     alias = '+alias' in mode
     frozen = '+frozen' in mode
     mode = mode.split('+')[0]
-    objs = build(tracks, alias)
+    try:
+        objs = build(tracks, alias)
+    except Exception as e:      # noqa: BLE001
+        return 'err ' + type(e).__name__, f'building the input tracks (legal messages) raised {type(e).__name__}: {e}'
     if frozen:
         # immutable (hashable) messages are legal track contents: they must come through a merge untouched as well
         from mido.frozen import freeze_message
